@@ -258,7 +258,7 @@ def shards(tier):
                                             'k2': 2 if T else 1, 'first': first}))
         for ver in (31, 311):
             for first in GEN_STEPS:
-                out.append(('general', {'profile': profile, 'ver': ver, 'keepalive': 5 if ver == 31 else 0, 'k': 5 if T else 3, 'first': first,
+                out.append(('general', {'profile': profile, 'ver': ver, 'keepalive': 5 if ver == 31 else 0, 'k': 4 if T else 3, 'first': first,
                                         'before': ver == 311, 'stray_will_args': first in ('advance', 'disconnect')}))
     for profile in ('publisher', 'pubsubs'):
         for ver in (31, 311):
@@ -270,7 +270,7 @@ META = {
     'rule': '(closing) connected client with one request of every kind pending, then disconnect() or an abort-provoking packet, k free steps from {publish(QoS symbolic), '
             'subscribe, unsubscribe, connect, disconnect, advance(dt symbolic)} before the loss is reported, the loss, k2 steps after it, 2000 s; (general) histories of k '
             'steps over requests, acknowledgements, inbound traffic, time, disconnect, loss + new connection; every transport stream is parsed by the strict reference decoder',
-    'bounds': {'quick': 'resume: persistent session, window 1, one QoS 2 publish in flight and 2 publishes of symbolic QoS queued, 1 step, loss, rebuilt protocol (optional setWindowSize), CONNACK, 40 s; closing: one more publish held back by a full window, steps include setWindowSize(symbolic); k=3 after disconnect(), k=2 after an abort, k2=1, keepalive 0/5, 3 profiles; general: k=3, both protocol versions', 'thorough': 'closing: k=4, k2=2; general: k=5'},
+    'bounds': {'quick': 'resume: persistent session, window 1, one QoS 2 publish in flight and 2 publishes of symbolic QoS queued, 1 step, loss, rebuilt protocol (optional setWindowSize), CONNACK, 40 s; closing: one more publish held back by a full window, steps include setWindowSize(symbolic); k=3 after disconnect(), k=2 after an abort, k2=1, keepalive 0/5, 3 profiles; general: k=3, both protocol versions', 'thorough': 'closing: k=4, k2=2; general: k=4'},
     'stubs': ['fake transport with asynchronous loss', 'twisted task.Clock', 'jitter: fixed sequence'],
     'outside': ['connect() called on a protocol object after its connection was reported lost (a Twisted protocol instance serves one connection)',
                 'writes between abortConnection() and the loss report (the statement restricts only what follows DISCONNECT and what follows the loss)'],
